@@ -228,6 +228,9 @@ pub fn eval_key(c: &KeyCase) -> Outcome {
     cfg.width = c.width.max(1) as u32;
     cfg.height = c.height.max(1) as u32;
     cfg.fast_start = Some(c.fast_start);
+    // half of the cases also call the fragmented-only parameter setters with a plausible group for the same codec (documented
+    // as ignored by build()): the record still has to come from the first keyframe
+    cfg.reconfig = if c.height % 2 == 1 { 8 } else { 0 };
     let tag = 0x7000_0000_0000_0000u64 | c.width as u64;
     // build the frame and the expectation
     enum Want {
